@@ -374,9 +374,20 @@ def py_contains(container, item):
         if is_intlike(item):
             raise OutOfReach("int in bytes")
         return rope_contains(container, item)
+    if isinstance(container, range):
+        if not is_sym(item):
+            return item in container
+        if isinstance(item, (SInt, SBool)):
+            t = T(item)
+            if container.step > 0:
+                return mk_bool(z3.And(t >= container.start, t < container.stop, (t - container.start) % container.step == 0))
+            return mk_bool(z3.And(t <= container.start, t > container.stop, (container.start - t) % (-container.step) == 0))
+        return False
     if isinstance(container, IIter):
         raise OutOfReach("in on iterator")
-    raise TypeError(f"argument of type '{type_name(container)}' is not iterable")
+    if isinstance(container, (IObj, IClass, SFloat)) or container is None or isinstance(container, (int, float, SInt, SBool)):
+        raise TypeError(f"argument of type '{type_name(container)}' is not iterable")
+    raise OutOfReach(f"'in' on a {type(container).__name__}")
 
 
 def rope_contains(hay, needle):
